@@ -52,7 +52,7 @@ REQUIRED = {
     'sample-support': 40, 'square-support': 40, 'sample-unsert-null': 10,
     'lhs-struct': 40, 'lhs-balance': 40, 'rand-struct': 40,
     'rand-poi-struct': 40, 'tt-idx': 40, 'tt-layout': 40,
-    'long-support': 40,
+    'long-support': 40, 'wide-support': 30,
 }
 REQUIRED_EVENTS = {'audit-multi-indices': 2000, 'square-unique-restart': 1,
     'unsert-null-rows-drawn': 1}
@@ -107,6 +107,8 @@ def gen_cases(seed, tier):
             'big': bool(j % 4 == 0)})
     for j in range(24 if quick else 600):
         out.append({'kind': 'long', 'seed': int(rng.integers(1 << 62))})
+    for j in range(12 if quick else 120):
+        out.append({'kind': 'wide', 'seed': int(rng.integers(1 << 62))})
     # interleave so that every shard gets both kinds and all families
     order = np.random.default_rng([seed, 77]).permutation(len(out))
     return [out[int(i)] for i in order]
@@ -169,10 +171,54 @@ def run_long(case, ctx, teneva):
     ctx.nontrivial(['long', nm, d])
 
 
+def run_wide(case, ctx, teneva):
+    """A wide middle mode (1024..2048) with right rank 8..16 and more than a
+    thousand samples per call (rows x mode size x rank > 2^24): T[i0, i1, i2] =
+    u[i0] w[i1] v[i2] [i2 == i1 mod R], so that the last index of every drawn
+    row is determined by ITS OWN middle index; a row that continues with the
+    state of another sample has entry exactly 0."""
+    rng = np.random.default_rng(case['seed'])
+    R = int(rng.choice([8, 16]))
+    N1 = 2048 if R == 8 or rng.random() < 0.3 else 1024
+    n0 = int(rng.integers(2, 6))
+    u = rng.uniform(0.5, 1.5, size=n0) * rng.choice([-1., 1.], size=n0)
+    w = rng.uniform(0.2, 1.5, size=N1)
+    v = rng.uniform(0.5, 1.5, size=R)
+    G1 = np.zeros((1, N1, R))
+    G1[0, np.arange(N1), np.arange(N1) % R] = w
+    G2 = np.zeros((R, R, 1))
+    G2[np.arange(R), np.arange(R), 0] = v
+    Y = [u.reshape(1, n0, 1), G1, G2]
+    n = [n0, N1, R]
+    rows = (1 << 24) // (N1 * R) + int(rng.integers(60, 400))
+    seed = int(rng.integers(1 << 30))
+    for name, fn, mm, kw in (
+            ('sample_square', teneva.sample_square, rows, {'unique': False}),
+            ('sample_square', teneva.sample_square, rows // 5 + 30,
+                {'unique': True}),
+            ('sample', teneva.sample, rows, {})):
+        Yc = [np.abs(G) for G in Y] if name == 'sample' else Y
+        I = call(ctx, 'wide-support', fn, Yc, mm, seed=seed, **kw)
+        if I is None:
+            continue
+        why = index_array_ok(I, mm, n)
+        if not ctx.check('wide-support', why is None, f'{name}(m={mm}, {kw}) '
+                f'on a tensor of shape {n}: {why}'):
+            continue
+        bad = int(np.sum(I[:, 2] != I[:, 1] % R))
+        ctx.check('wide-support', bad == 0, lambda: f'{name}(m={mm}, {kw}) on '
+            f'a tensor of shape {n}, rank {R}: {bad} of {mm} rows have '
+            f'i_2 != i_1 mod {R}, i.e. entry exactly 0 (first at row '
+            f'{int(np.argmax(I[:, 2] != I[:, 1] % R))})')
+    ctx.nontrivial(['wide', N1, R])
+
+
 def run_case(case, ctx):
     import teneva
     if case['kind'] == 'long':
         return run_long(case, ctx, teneva)
+    if case['kind'] == 'wide':
+        return run_wide(case, ctx, teneva)
     if case['kind'] == 'dist':
         run_dist(case, ctx, teneva)
     else:
